@@ -342,6 +342,19 @@ func cmdRun(args []string) int {
 			if budget == 0 {
 				budget = 20 * time.Minute
 			}
+			if ov := os.Getenv("VERIF_PARAMS"); ov != "" { // debugging aid: NAME=int,NAME=int
+				merged := map[string]int64{}
+				for k, v := range params {
+					merged[k] = v
+				}
+				for _, kv := range strings.Split(ov, ",") {
+					if k, v, ok := strings.Cut(kv, "="); ok {
+						n, _ := strconv.ParseInt(v, 10, 64)
+						merged[k] = n
+					}
+				}
+				params = merged
+			}
 			qt := 30000
 			if tier == "thorough" {
 				qt = 120000
